@@ -311,6 +311,8 @@ def _m_format(it, v, args, kwargs, node):
 
 def _m_join(it, v, args, kwargs, node):
     arg = it.resolve(args[0])
+    if isinstance(arg, GenCallV):
+        arg = it.drain_generator(arg, node)
     sep_len = v.length()
     if isinstance(arg, ListV) and arg.items is None and it.store.decide_eq0(sep_len) is True:
         from .loops import list_joined
@@ -938,6 +940,20 @@ def e_datetime_ctor(it, args, kwargs, node):
     return SymV(it.fresh('datetime'), 'datetime', origin=('datetime-ctor', list(args), dict(kwargs)), tags=tags)
 
 
+def e_dict_fromkeys(it, args, kwargs, node):
+    """dict.fromkeys(keys, value): every key of `keys` mapped to the same value"""
+    keys = it.resolve(args[0]) if args else None
+    val = args[1] if len(args) > 1 else ConstV(None)
+    if isinstance(keys, (ListV, TupleV)) and getattr(keys, 'items', None) is not None:
+        ks = [it.py_key(k) for k in keys.items]
+        if None not in ks:
+            return DictV(items={k: val for k in ks}, desc='fromkeys')
+    d = DictV(open_=True, desc='fromkeys')
+    d.default = lambda it2, key, n, strict, val=val: val
+    d.fromkeys_of = keys
+    return d
+
+
 def e_partial(it, args, kwargs, node):
     if not args:
         return UnkV('partial')
@@ -964,6 +980,21 @@ def e_accumulate(it, args, kwargs, node):
                                 [args[0], init if has else IntV(0), ConstV(has)], {}, node=node)
     it.note_unknown(node, 'itertools.accumulate with a function')
     return UnkV('accumulate')
+
+
+def e_chain(it, args, kwargs, node):
+    return it.call_function(it.an.prog.synthetic('chain_n'), list(args), {}, node=node)
+
+
+def e_chain_from_iterable(it, args, kwargs, node):
+    return it.call_function(it.an.prog.synthetic('chain_from_iterable'), list(args), {}, node=node)
+
+
+def e_islice(it, args, kwargs, node):
+    if len(args) == 2 and not kwargs:
+        return it.call_function(it.an.prog.synthetic('islice_stop'), list(args), {}, node=node)
+    it.note_unknown(node, 'itertools.islice with start / step')
+    return IterV(UnkV('islice'), desc='islice')
 
 
 def e_compress(it, args, kwargs, node):
@@ -1219,8 +1250,9 @@ EXT = {
     'struct.unpack': e_struct_unpack, 'struct.pack': e_struct_pack, 'struct.calcsize': e_struct_calcsize,
     'binascii.hexlify': e_hexlify, 'binascii.b2a_hex': e_hexlify,
     'binascii.unhexlify': e_unhexlify, 'binascii.a2b_hex': e_unhexlify,
-    'functools.partial': e_partial, 'operator.methodcaller': e_methodcaller, 'operator.itemgetter': e_itemgetter,
-    'operator.attrgetter': e_attrgetter, 'itertools.compress': e_compress, 'itertools.accumulate': e_accumulate,
+    'dict.fromkeys': e_dict_fromkeys, 'functools.partial': e_partial, 'operator.methodcaller': e_methodcaller, 'operator.itemgetter': e_itemgetter,
+    'operator.attrgetter': e_attrgetter, 'itertools.compress': e_compress, 'itertools.chain': e_chain, 'itertools.chain.from_iterable': e_chain_from_iterable,
+    'itertools.islice': e_islice, 'itertools.accumulate': e_accumulate,
     'contextlib.ExitStack': e_exitstack, 'contextlib.contextmanager': e_contextmanager,
     'functools.reduce': e_reduce, 'operator.xor': _operator('op_xor'), 'operator.add': _operator('op_add'),
     'operator.or_': _operator('op_or'), 'operator.and_': _operator('op_and'),
